@@ -56,6 +56,22 @@ def battery(fqe, seed, tier):
             g1 = r.randint(-2, 3, (2 * norb, 2 * norb)).astype(numpy.complex128)
             g1 = g1 + g1.T
             put(f"applygso:{tag}", w.apply(fqe.get_gso_hamiltonian((g1,))).get_coeff(key))
+            # spin-conserving spin-orbital 1+2-body operator whose alpha-beta coupling is NOT symmetric under
+            # exchanging the two electrons' orbital pairs (every spin block has its own integers), so a kernel that
+            # reads h2e[kl, ij] for h2e[ij, kl] cannot agree with one that does not
+            n2 = 2 * norb
+            s1 = numpy.zeros((n2, n2), dtype=numpy.complex128)
+            for s in range(2):
+                blk = r.randint(-2, 3, (norb, norb)).astype(numpy.complex128)
+                s1[s * norb:(s + 1) * norb, s * norb:(s + 1) * norb] = blk + blk.T
+            s2 = numpy.zeros((n2,) * 4, dtype=numpy.complex128)
+            for _ in range(40):
+                i, j, k, l = r.randint(0, n2, 4)
+                if (i < norb) == (k < norb) and (j < norb) == (l < norb):
+                    v = float(r.randint(-2, 3)) + 1j * float(r.randint(-2, 3))
+                    s2[i, j, k, l] += v
+                    s2[l, k, j, i] += numpy.conj(v)
+            put(f"applysso12:{tag}", w.apply(fqe.get_sso_hamiltonian((s1, s2))).get_coeff(key))
         v = r.randint(-2, 3, (norb, norb)).astype(numpy.float64)
         put(f"diagcoulomb:{tag}", w.apply(fqe.get_diagonalcoulomb_hamiltonian(v + v.T)).get_coeff(key))
         put(f"diag:{tag}", w.apply(fqe.get_diagonal_hamiltonian(r.randint(-3, 4, norb).astype(numpy.float64))).get_coeff(key))
